@@ -319,7 +319,7 @@ pub fn run(cx: &mut Ctx) {
     cx.check(
         "validators-vs-std",
         RULE,
-        Budget { quick: 1_500_000, thorough: 60_000_000, max_len: 1200 },
+        Budget { quick: 3_000_000, thorough: 150_000_000, max_len: 1200 },
         |u, st| {
             let c = gen_case(u, max_suffix);
             classify(&c, st);
